@@ -28,9 +28,9 @@ def oracle(sc, outs):
 
 
 def run(ctx, model_ok=True, proofs_broken=False):
-    n = 900 if ctx.tier == "quick" else 9000
+    n = 900 if ctx.tier == "quick" else 40000
     scripts = P.mixed_scripts(ctx, n, policy_p=0.7)
-    scripts += P.handover_scripts(ctx, 300 if ctx.tier == "quick" else 3000)
+    scripts += P.handover_scripts(ctx, 300 if ctx.tier == "quick" else 12000)
     scripts += P.tfile_scripts(ctx, modes=("bytes", "rand"))
     scripts += lib.load_fuzz_corpus(ctx, 10 ** 9, "C01")
     conncheck.run_conn_prop(ctx, "C01", scripts, oracle, "conn/memory", RULE, model_ok, san_prop=True)
